@@ -9,6 +9,7 @@ package main
 import (
 	"bytes"
 	"fmt"
+	"image"
 	"os"
 	"strings"
 	"time"
@@ -277,5 +278,58 @@ func quirkStream(cfg *hx.Config) *hx.Stream {
 		run(envFromBits(e), rnd.Intn(3) == 0, uint32(rnd.Intn(1<<17)), rs, false, "random replies in any order")
 	}
 	quirkEnv{}.apply()
+	return s
+}
+
+// gfxStream: which graphics protocol New settles on (observed through the type NewImage
+// returns), for every combination of sixel / kitty graphics replies x ASCIINEMA_REC x
+// VAXIS_GRAPHICS x pixel size known (in-band resize reports carry it; the fake console's
+// Size() does not)
+func gfxStream(cfg *hx.Config) *hx.Stream {
+	s := hx.NewStream("gfx", "model.QuirksGfx", "gin * Z", "c07_gfx_mismatches", "c07_gfx_violations")
+	words := []string{"", "none", "full", "half", "sixel", "kitty", "best", "KITTY"}
+	code := map[string]int{"none": 1, "full": 2, "half": 3, "sixel": 4, "kitty": 5}
+	pic := image.NewRGBA(image.Rect(0, 0, 1, 1))
+	for m := 0; m < 16; m++ {
+		sixel, kit, asc, pix := m&1 != 0, m&2 != 0, m&4 != 0, m&8 != 0
+		for _, w := range words {
+			mask := uint32(cfg.Rand.Intn(1<<17)) &^ (1<<3 | 1<<6 | 1<<7 | 1<<9)
+			prof := hx.ProfileFromMask(mask, 3, 8)
+			prof.Sixel, prof.KittyGraphics, prof.InBandResize = sixel, kit, pix
+			fc := hx.NewFakeConsole(prof)
+			if asc {
+				os.Setenv("ASCIINEMA_REC", "1")
+			}
+			if w != "" {
+				os.Setenv("VAXIS_GRAPHICS", w)
+			}
+			vx, err := vaxis.New(vaxis.Options{WithConsole: fc, NoSignals: true, DisableMouse: true})
+			os.Unsetenv("ASCIINEMA_REC")
+			os.Unsetenv("VAXIS_GRAPHICS")
+			if err != nil {
+				panic(err)
+			}
+			gp := 0
+			if img, err := vx.NewImage(pic); err == nil {
+				switch img.(type) {
+				case *vaxis.FullBlockImage:
+					gp = 1
+				case *vaxis.HalfBlockImage:
+					gp = 2
+				case *vaxis.Sixel:
+					gp = 3
+				case *vaxis.KittyImage:
+					gp = 4
+				default:
+					gp = -1
+				}
+			}
+			s.Add(hx.Tuple(fmt.Sprintf("mkGin %v %v %v %d %v", sixel, kit, asc, code[w], pix), fmt.Sprint(gp)),
+				map[string]interface{}{"sixel_reply": sixel, "kitty_graphics_reply": kit, "ASCIINEMA_REC": asc, "VAXIS_GRAPHICS": w,
+					"pixel_size_known": pix, "graphics_protocol": gp},
+				asc || w != "" || sixel || kit, "VAXIS_GRAPHICS="+w)
+			hx.WithTimeout(2*time.Second, vx.Close)
+		}
+	}
 	return s
 }
